@@ -67,6 +67,8 @@ pub fn make_where_clause<'a>(
     }
 
     for lifetime in generics.lifetimes() {
+        // only the lifetime itself: a declaration like `'b: 'a` carries its own bounds
+        let lifetime = &lifetime.lifetime;
         where_clause
             .predicates
             .push(parse_quote!(#lifetime: 'static))
